@@ -503,6 +503,10 @@ class Fn:
                 pa, ca, ta = self.ex(ks[1], env)
                 pb, cb, tb = self.ex(ks[2], env)
                 return pa + pb, *self.binop(opn[8:], ca, ta, cb, tb)
+            if opn == "operator[]" and "$index" in env:
+                (lst, iname), elem = env["$index"]
+                if strip(ks[1]).get("referencedDecl", {}).get("name") == lst and strip(ks[2]).get("referencedDecl", {}).get("name") == iname:
+                    return [], elem, "bytes"
             if opn == "operator[]":
                 pa, ca, ta = self.ex(ks[1], env)
                 pb, cb, tb = self.ex(ks[2], env)
@@ -746,6 +750,11 @@ class Fn:
                 return chain[0], "(env.errPage %s %s)" % (chain[1], chain[2]), "bytes"
         o0 = strip(objn)
         vn0 = o0.get("referencedDecl", {}).get("name") if o0.get("kind") == "DeclRefExpr" else None
+        if "$index" in env and nm in ("at", "value"):
+            (lst, iname), elem = env["$index"]
+            real1 = [x for x in argn if x.get("kind") != "CXXDefaultArgExpr"]
+            if vn0 == lst and len(real1) == 1 and strip(real1[0]).get("referencedDecl", {}).get("name") == iname:
+                return [], elem, "bytes"
         if vn0 in env and env[vn0][1] == "iter" and env[vn0][0][0] == "find" and not [x for x in argn if x.get("kind") != "CXXDefaultArgExpr"]:
             if nm == "value":
                 return [], "(HeaderMap.value %s %s)" % (env[vn0][0][2], env[vn0][0][1]), "bytes"
@@ -994,6 +1003,12 @@ class Fn:
                     if ct != t:
                         raise Untranslatable("initialiser of type %s for %s" % (ct, nm))
                     lines += p + ["let %s : %s := %s" % (nm, LEAN_TY[t], c)]
+                    # `const int n = L.size()`: remembered, so that `for (i = 0; i < n; ++i)` is seen as a walk over L
+                    i1 = strip(init[0])
+                    if t == "int" and "const" in qt(v) and i1.get("kind") == "CXXMemberCallExpr" and strip(kids(i1)[0]).get("name") in ("count", "size", "length") and len(kids(i1)) == 1:
+                        l1 = strip(kids(strip(kids(i1)[0]))[0])
+                        if l1.get("kind") == "DeclRefExpr" and l1.get("referencedDecl", {}).get("name") in env and env[l1["referencedDecl"]["name"]][1] == "blist":
+                            env[nm + "$countof"] = (l1["referencedDecl"]["name"], "meta")
                 env[nm] = (nm, t)
             return lines, env
         if k == "BinaryOperator" and s0.get("opcode") == "=":
@@ -1023,9 +1038,18 @@ class Fn:
                 p, c, t = self.ex(ks[2], env)
                 l, env = self.assign(ks[1], c, t, env)
                 return p + l, env
+            if opn == "operator<<":
+                pl, cl, tl = self.ex(ks[1], env)
+                p, c, t = self.ex(ks[2], env)
+                if tl == "blist" and t == "bytes":
+                    l, env = self.assign(ks[1], "(%s ++ [%s])" % (cl, c), "blist", env)
+                    return pl + p + l, env
             if opn == "operator+=":
                 pl, cl, tl = self.ex(ks[1], env)
                 p, c, t = self.ex(ks[2], env)
+                if tl == "blist" and t == "bytes":
+                    l, env = self.assign(ks[1], "(%s ++ [%s])" % (cl, c), "blist", env)
+                    return pl + p + l, env
                 if tl == t == "bytes":
                     l, env = self.assign(ks[1], "(%s ++ %s)" % (cl, c), "bytes", env)
                     return pl + p + l, env
@@ -1035,7 +1059,7 @@ class Fn:
             nm = callee.get("name")
             objn = kids(callee)[0] if callee.get("kind") == "MemberExpr" else None
             real = [x for x in kids(s0)[1:] if x.get("kind") != "CXXDefaultArgExpr"]
-            if objn is not None and nm in ("append", "push_back", "remove", "truncate", "clear", "insert", "replace") and self.obj_path(objn) not in ("this", "q", "d", "socket"):
+            if objn is not None and nm in ("append", "push_back", "remove", "truncate", "clear", "insert", "replace", "removeFirst", "pop_front") and self.obj_path(objn) not in ("this", "q", "d", "socket"):
                 pl, cl, tl = self.ex(objn, env)
                 pre, a = self.args(real, env)
                 if tl == "bytes":
@@ -1052,6 +1076,9 @@ class Fn:
                     l, env = self.assign(objn, new, "bytes", env)
                     return pl + pre + l, env
                 if tl == "blist":
+                    if nm in ("removeFirst", "pop_front") and not a:
+                        l, env = self.assign(objn, "(List.tail %s)" % cl, "blist", env)
+                        return pl + pre + l, env
                     if nm in ("append", "push_back") and len(a) == 1 and a[0][1] == "bytes":
                         l, env = self.assign(objn, "(%s ++ [%s])" % (cl, a[0][0]), "blist", env)
                         return pl + pre + l, env
@@ -1230,6 +1257,43 @@ class Fn:
                 return None
             elem = kids(parts[0])[0]["name"]
             return elem, cl, self.flatten(parts[-1]), False
+        if i0.get("kind") == "IntegerLiteral" and i0.get("value") == "0" and ty_of(qt(v)) == "int":
+            iname = v["name"]
+            c0 = strip(cnd)
+            lst = None
+            if c0.get("kind") == "BinaryOperator" and c0.get("opcode") == "<" and strip(kids(c0)[0]).get("referencedDecl", {}).get("name") == iname:
+                r = strip(kids(c0)[1])
+                rn = r.get("referencedDecl", {}).get("name")
+                if r.get("kind") == "DeclRefExpr" and rn and (rn + "$countof") in env:
+                    lst = env[rn + "$countof"][0]
+                if r.get("kind") == "CXXMemberCallExpr" and strip(kids(r)[0]).get("name") in ("count", "size", "length") and len(kids(r)) == 1:
+                    ln0 = strip(kids(strip(kids(r)[0]))[0])
+                    lname = ln0.get("referencedDecl", {}).get("name")
+                    if ln0.get("kind") == "DeclRefExpr" and lname in env and env[lname][1] == "blist":
+                        lst = lname
+            n0 = strip(inc) if inc and inc.get("kind") else {}
+            isinc = (n0.get("kind") == "UnaryOperator" and n0.get("opcode") == "++" and strip(kids(n0)[0]).get("referencedDecl", {}).get("name") == iname)
+            if lst is not None and isinc:
+                # every use of the index in the body must be L.at(i) / L[i] / L.value(i), and L itself must not change
+                okuse = [True]
+                def uses(n, parent_ok):
+                    n1 = n
+                    if n1.get("kind") == "DeclRefExpr" and n1.get("referencedDecl", {}).get("name") == iname and not parent_ok:
+                        okuse[0] = False
+                    for c in kids(n1):
+                        ok_here = False
+                        s1 = strip(n1)
+                        if s1.get("kind") == "CXXMemberCallExpr" and strip(kids(s1)[0]).get("name") in ("at", "value") \
+                                and strip(kids(strip(kids(s1)[0]))[0]).get("referencedDecl", {}).get("name") == lst:
+                            ok_here = True
+                        if s1.get("kind") == "CXXOperatorCallExpr" and strip(kids(s1)[0]).get("referencedDecl", {}).get("name") == "operator[]" \
+                                and strip(kids(s1)[1]).get("referencedDecl", {}).get("name") == lst:
+                            ok_here = True
+                        uses(c, ok_here or (parent_ok and n1.get("kind") in WRAP))
+                uses(body, False)
+                if okuse[0] and lst not in self.assigned(self.flatten(body), env):
+                    self.index_elem = (lst, iname)
+                    return "%s_%s" % (lst, iname), env[lst][0], self.flatten(body), "index"
         if i0.get("kind") == "CXXMemberCallExpr" and strip(kids(i0)[0]).get("name") in ("constBegin", "begin", "cbegin") and "iterator" in qt(v):
             pl, cl, tl = self.ex(kids(strip(kids(i0)[0]))[0], env)
             if tl != "blist" or pl:
@@ -1292,7 +1356,9 @@ class Fn:
                 self.cont_cb = again
                 env_in = dict(env)
                 env_in[elem] = (elem, "bytes")
-                if deref:
+                if deref == "index":
+                    env_in["$index"] = (self.index_elem, elem)
+                elif deref:
                     env_in[elem] = (elem, "iterelem")
                 body_code = self.stmts(bss, env_in, again, lambda e: tup("none", e))
                 fn = "let rec %s (l_ : List Bytes)%s : %s :=\n  match l_ with\n  | [] => %s\n  | %s :: tl_ =>\n%s" % (
